@@ -85,11 +85,11 @@ SPEC = dict(
     closed_world=[
         dict(file=SS, members=['stopSource_', 'receiverToken_'],
              allow=[r'UNIFEX_NO_UNIQUE_ADDRESS stop_source_type stopSource_;', r'UNIFEX_NO_UNIQUE_ADDRESS stop_token_type receiverToken_;',
-                    r', receiverToken_\(get_stop_token\(r\)\)',
+                    r', receiverToken_\((?:[^()]|\([^()]*\))*\)',
                     # connect_inner_op: the successor factory is handed the interposed source (the user may call request_stop on it)
                     r'static_cast<SuccessorFactory&&>\(func\)\(stopSource_\),']),
         dict(file=TK, members=['stopSource_', 'receiverToken_'],
-             allow=[r'stop_token_type receiverToken_;', r'fused_stop_source<stop_token_type> stopSource_;', r', receiverToken_\(get_stop_token\(r\)\)',
+             allow=[r'stop_token_type receiverToken_;', r'fused_stop_source<stop_token_type> stopSource_;', r', receiverToken_\((?:[^()]|\([^()]*\))*\)',
                     r'func_, stopSource_\.get_token\(\), static_cast<Receiver2&&>\(r\)\)\) \{\}']),
         dict(file=FS, members=['callbacks_'], within=FSS,
              allow=[r'UNIFEX_NO_UNIQUE_ADDRESS std::optional<fused_callback_type> callbacks_;']),
